@@ -23,6 +23,7 @@ RULE = ('Differential, E1 (Hypothesis): a GeoDataFrame of 1..16 rows with a poin
         'the pandas frame the collection represents (built independently in pandas for the first four provenances; the computed frame '
         'for pack/parquet, whose row multiset must equal the source). Non-trivial: >= 2 partitions and at least one of: empty partition, '
         'all-missing partition, partition covered by the box, provenance other than from_pandas. distinct = distinct cases.')
+RULE += (' Added after the seeded rounds: provenances parquet-rewrite (the path held another dataset, read and queried in this process) and parquet-list (two datasets listed against path order).')
 ASSUMPTIONS = ['number and divisions of result partitions are not asserted', "sjoin how='right' is documented as unsupported for Dask frames and not exercised"]
 BUDGET = {'quick': {'shards': 16, 'examples': 480, 'min_evaluations': 240},
           'thorough': {'shards': 16, 'examples': 4800, 'min_evaluations': 2400}}
